@@ -35,6 +35,8 @@ def build_harnesses(configs, omp=False, wide=False):
 
 
 class CaseResult:
+    leak = None          # LeakSanitizer report of the process that ran this case's chunk (C15 bisects)
+
     def __init__(self, case):
         self.case = case
         self.cpp = None      # list of lines, or None when the harness died before/inside this case
@@ -66,6 +68,9 @@ def _run_chunk(args):
         if r.lean is None or not r.lean or r.lean[-1] != "end":
             r.lean_error = errl[-2000:]
         results.append(r)
+    if crashed_at is None and rc != 0 and "LeakSanitizer" in err:
+        for r in results:
+            r.leak = err[:4000]
     # cases after a crash were not run: rerun them one chunk further
     if crashed_at is not None:
         idx = [c["name"] for c in cases].index(crashed_at)
